@@ -465,7 +465,7 @@ pub fn etrade_line_cases() -> Vec<Value> {
             if lines[k].trim().is_empty() {
                 continue;
             }
-            for mode in ["drop", "garble"] {
+            for mode in ["drop", "garble", "zero"] {
                 let mut ls: Vec<String> = lines.iter().map(|s| s.to_string()).collect();
                 if mode == "drop" {
                     ls.remove(k);
@@ -473,7 +473,9 @@ pub fn etrade_line_cases() -> Vec<Value> {
                     if !ls[k].chars().any(|c| c.is_ascii_digit()) {
                         continue;
                     }
-                    ls[k] = ls[k].chars().map(|c| if c.is_ascii_digit() { 'x' } else { c }).collect();
+                    // "zero": every figure of the line becomes 0 (a sell-to-cover of 0.0000 shares, a price of $0.00)
+                    let to = if mode == "zero" { '0' } else { 'x' };
+                    ls[k] = ls[k].chars().map(|c| if c.is_ascii_digit() { to } else { c }).collect();
                 }
                 let bytes = ls.join("\n").into_bytes();
                 out.push(json!({"id": "etl", "kind": "bytes", "fe": "etrade", "header": format!("{name}:{mode}:{k}"), "rows": [], "vals": "plain", "opts": [], "opening": "none", "bytes": bytes}));
